@@ -15,7 +15,7 @@ CLAIMED = {
             "DESIGN.md §6.C01"),
     "C03": ("exploration",
             "deterministic simulation with network corruption faults (bit flips, truncations, splices of two valid messages, stale and losing commits) and a Byzantine member (honest library + commit-modifier hook signing structurally invalid update paths / leaves / trees)",
-            "On top of the C01 world, corrupted copies of every message kind the delivery service carries are delivered before or after the genuine copy, and a current member signs commits with a too short / too long / permuted update path, foreign keys, a wrong parent hash or an invalid leaf; every such delivery must return an error (never a panic, never acceptance), genuine deliveries must still report the true sender, payload and AAD, and the group must still converge after the faults stop. Sampled positions and histories.",
+            "On top of the C01 world, corrupted copies of every message kind the delivery service carries are delivered before or after the genuine copy, and a current member signs commits with a too short / too long / permuted update path, foreign keys, a wrong parent hash or an invalid leaf - including commits that are consistent in everything but one fact: a key on the committer's own path that does not come from its path secrets (must be noticed by every receiver below that node), or a path that is one node short with parent hashes to match; every such delivery must return an error (never a panic, never acceptance), genuine deliveries must still report the true sender, payload and AAD, and the group must still converge after the faults stop. Sampled positions and histories.",
             "trusted: the simulator's notion of which mutated bytes are 'modified' (any byte difference), the H4 hook producing the structurally invalid commits; forging PrivateMessages and Welcome/GroupInfo corruption for joiners are covered under C07/C16",
             "DESIGN.md §6.C03"),
     "C04": ("exploration",
@@ -61,11 +61,11 @@ CLAIMED = {
     "C13": ("exploration",
             "refinement against an independent reference model (RFC 9420 formulas on bare sha2/hmac) run in lock-step with every simulated epoch: inputs are the contexts, PSK lists, tree sizes and transcripts that real multi-party histories produce; joiner secrets are obtained by the harness opening the GroupSecrets of Welcomes itself",
             "For every epoch transition whose joiner secret the harness can obtain independently (it opens the joiner's GroupSecrets with the joiner's init key, or the commit has no path so the commit secret is zero): joiner secret = ExpandWithLabel(Extract(init[n-1], commit_secret)) with the commit secret walked up from the joiner's path secret through the reference tree; PSK secret chain from the PSK ids in GroupSecrets and the stored / resumption values; welcome key+nonce, epoch secret and the derived exporter, authentication, external, membership, init, resumption, sender-data and confirmation secrets vs every member's hook-H2 values; confirmation tag, confirmed and interim transcript hashes (public commits), membership tag of every public member message, epoch authenticator, export_secret for random label / context / length in {0,1,16,32,33,64,255}; for every PrivateMessage the content key, nonce (modulo reuse guard) and the sender-data key / nonce from the ciphertext sample vs the reference secret tree for (tree size, leaf, type, generation). Suites 1-3 (SHA-256); other hashes via C14's provider runs.",
-            "trusted: sha2 / hmac crates, my reading of RFC 9420 (a common-mode error in both the library and the reference is the residual risk); HPKE open of GroupSecrets uses the provider primitive",
+            "trusted: sha2 / hmac crates, my reading of RFC 9420 (a common-mode error in both the library and the reference is the residual risk; the reference recomputes 9205 values of the IETF-format vectors in /repo/mls-rs/test_data at every start and a disagreement is a harness error); HPKE open of GroupSecrets uses the provider primitive",
             "DESIGN.md §6.C13"),
     "C18": ("exploration",
             "deterministic simulation with divergent PSK stores: per party and PSK id the common value, another value or nothing (seeded); commits inject 0-3 external PSKs and resumption PSKs of past epochs inside and beyond each member's retention window, by value and by reference; PSK-holder + retention model predicts who must follow",
-            "For every commit the model derives the PSK list (by value, plus by-reference proposals the committer can resolve) and for every receiver whether it holds the committer's value of each external PSK and still retains each referenced past epoch (retention model shared with C19, member at that epoch on the same device): holders must accept and reach the canonical epoch state (C01 oracle), everybody else must reject with its complete state unchanged (H1) and is then counted as legitimately stuck; joiners need the same external PSKs and can never use a Welcome that needs a resumption PSK. That the PSK value / id / order enters every epoch secret is decided under C13 (PSK chain vs reference).",
+            "For every commit the model derives the PSK list (by value, plus by-reference proposals the committer can resolve) and for every receiver whether it holds the committer's value of each external PSK and still retains each referenced past epoch (retention model shared with C19, member at that epoch on the same device): holders must accept and reach the canonical epoch state (C01 oracle), everybody else must reject with its complete state unchanged (H1) and is then counted as legitimately stuck; joiners need the same external PSKs and can never use a Welcome that needs a resumption PSK. The C13 reference key schedule runs in these worlds too: the PreSharedKeyIDs are read from the commit itself (by value and by reference, in proposal order) and from the Welcome's GroupSecrets, must be the same list, and every epoch secret must equal the reference PSK chain over exactly those ids, nonces and the committer's values - so value, id, nonce and order each enter every secret. Forged commits (signed by a member, real membership key) that inject a duplicate PSK id or a resumption PSK naming another group with the current epoch number must be stopped by a PSK rule, not by the confirmation tag.",
             "trusted: the PSK-holder and retention models; cases the model cannot decide (a by-reference PSK the committer may have dropped) are 'may' and only safety is checked",
             "DESIGN.md §6.C18"),
     "C19": ("exploration",
@@ -89,8 +89,8 @@ CLAIMED = {
             "trusted: canonical rosters of the old group; mismatched-Welcome variants beyond 'no old state', 'resumption secret of another epoch' and 'no resumption PSK at all' are not generated",
             "DESIGN.md §6.C17"),
     "C14": ("exploration",
-            "deterministic simulation of mixed-provider groups (each simulated member draws OpenSSL, AWS-LC, RustCrypto or deterministic RustCrypto) with an in-situ differential crypto seam: every deterministic primitive call the protocol makes is evaluated on a second provider and compared; randomised outputs of one provider are consumed by the others through the protocol",
-            "PARTIAL CLAIM. Decided: members using different providers form one working group on suites 1, 2, 3 and 7 (C01 agreement, C08 tree and bounded-liveness oracles over the mixed group: signatures, HPKE ciphertexts and set-ups, Welcome and PSK material made by one provider are consumed by the others); on every hash, MAC, KDF extract / expand, AEAD seal / open, deterministic KEM derivation, signature-key derivation, HPKE open (base and PSK mode), HPKE receiver set-up, KEM public-key validation and signature verification the protocol performs - including the malformed inputs that corrupted traffic pushes into verify / open / validate - the primary and the cross provider must return identical bytes or the identical accept / reject decision; every signature the primary makes must verify under the cross provider and every generated KEM key must open what the cross provider seals to it. NOT decided here: input lengths the protocol never produces (a pure-function sweep, outside this family) and the X.509 validators (no certificate scenario was built).",
+            "deterministic simulation of mixed-provider groups (each simulated member draws OpenSSL, AWS-LC, RustCrypto or deterministic RustCrypto) with an in-situ differential crypto seam: every deterministic primitive call the protocol makes is evaluated on a second provider and compared; randomised outputs of one provider are consumed by the others through the protocol; X.509 validator cases (chain shape, defect, validation time) are further seeded actions of the same runs",
+            "PARTIAL CLAIM (two known findings on X.509 verdicts are listed in known_findings.json). Decided: members using different providers form one working group on suites 1, 2, 3 and 7 (C01 agreement, C08 tree and bounded-liveness oracles over the mixed group: signatures, HPKE ciphertexts and set-ups, Welcome and PSK material made by one provider are consumed by the others); on every hash, MAC, KDF extract / expand, AEAD seal / open, deterministic KEM derivation, signature-key derivation, HPKE open (base and PSK mode), HPKE receiver set-up, KEM public-key validation and signature verification the protocol performs - including the malformed inputs that corrupted traffic pushes into verify / open / validate - the primary and the cross provider must return identical bytes or the identical accept / reject decision; every signature the primary makes must verify under the cross provider and every generated KEM key must open what the cross provider seals to it. X.509: for generated chains (0-2 intermediates, P-256 / Ed25519) with one injected defect (none, root appended, wrong issuer signature, missing intermediate, swapped intermediates, non-CA issuer, unknown root) and a validation time from the simulated clock on and around every validity boundary, the three validators must give the same verdict, the verdict of an RFC 5280 model wherever that is definite, and the leaf's public key. NOT decided here: input lengths the protocol never produces (a pure-function sweep, outside this family); X509IdentityProvider inside a running group.",
             "trusted: the differential wrapper (crypto.rs); runs on OpenSSL / AWS-LC are not bit-reproducible (their DRBGs), the replay file reproduces the schedule and, for deterministic primitives, the disagreement",
             "DESIGN.md §6.C14"),
     "C12": ("exploration",
